@@ -656,8 +656,10 @@ func (in *inliner) inlineCallStmt0(call *ast.CallExpr, stack map[*ast.FuncDecl]b
 		case !xPtr && rPtr:
 			x = &ast.UnaryExpr{OpPos: pos, Op: token.AND, X: x}
 		}
-		lhs = append(lhs, mk(name))
-		rhs = append(rhs, x)
+		if !in.sameNameUnassigned(d, name, x) {
+			lhs = append(lhs, mk(name))
+			rhs = append(rhs, x)
+		}
 	}
 	ai := 0
 	for _, fld := range d.Type.Params.List {
@@ -669,8 +671,10 @@ func (in *inliner) inlineCallStmt0(call *ast.CallExpr, stack map[*ast.FuncDecl]b
 			if ai >= len(call.Args) {
 				return rv, nil
 			}
-			lhs = append(lhs, mk(n.Name))
-			rhs = append(rhs, call.Args[ai])
+			if !in.sameNameUnassigned(d, n.Name, call.Args[ai]) {
+				lhs = append(lhs, mk(n.Name))
+				rhs = append(rhs, call.Args[ai])
+			}
 			ai++
 		}
 	}
@@ -715,6 +719,62 @@ func (in *inliner) inlineCallStmt0(call *ast.CallExpr, stack map[*ast.FuncDecl]b
 	in.inlinedObj[f] = true
 	in.count++
 	return rv, blk
+}
+
+// sameNameUnassigned: the argument is a plain identifier spelled like the parameter, and the helper never
+// assigns that parameter (nor takes its address): the helper's body can then read the caller's variable
+// directly, and no rebinding `x := x` is needed — rules that recognise a parameter of the enclosing
+// function (a flag, a clock) keep recognising it inside the inlined body.
+func (in *inliner) sameNameUnassigned(d *ast.FuncDecl, param string, arg ast.Expr) bool {
+	id, ok := Unparen(arg).(*ast.Ident)
+	if !ok || param == "" || param == "_" || id.Name != param {
+		return false
+	}
+	var pobj types.Object
+	check := func(fl *ast.FieldList) {
+		if fl == nil {
+			return
+		}
+		for _, f := range fl.List {
+			for _, n := range f.Names {
+				if n.Name == param {
+					pobj = in.info.Defs[n]
+				}
+			}
+		}
+	}
+	check(d.Recv)
+	check(d.Type.Params)
+	if pobj == nil {
+		return false
+	}
+	assigned := false
+	ast.Inspect(d.Body, func(n ast.Node) bool {
+		switch x := n.(type) {
+		case *ast.AssignStmt:
+			for _, l := range x.Lhs {
+				if li, ok := Unparen(l).(*ast.Ident); ok && (in.info.Uses[li] == pobj || in.info.Defs[li] == pobj) {
+					assigned = true
+				}
+			}
+		case *ast.IncDecStmt:
+			if li, ok := Unparen(x.X).(*ast.Ident); ok && in.info.Uses[li] == pobj {
+				assigned = true
+			}
+		case *ast.UnaryExpr:
+			if li, ok := Unparen(x.X).(*ast.Ident); ok && x.Op == token.AND && in.info.Uses[li] == pobj {
+				assigned = true
+			}
+		case *ast.RangeStmt:
+			for _, e := range []ast.Expr{x.Key, x.Value} {
+				if li, ok := e.(*ast.Ident); ok && e != nil && in.info.Uses[li] == pobj {
+					assigned = true
+				}
+			}
+		}
+		return true
+	})
+	return !assigned
 }
 
 func replaceReturns(body *ast.BlockStmt, label string, res []string) {
